@@ -123,7 +123,8 @@ if __name__ == "__main__":
     sys.path.insert(0, "/verif")
     from sa.facts import Program
     import os
-    P = Program(os.environ.get("FACTS", "/verif/.work/facts"))
+    from sa.extract import facts_for
+    P = Program(os.environ.get("FACTS") or facts_for()[0])
     for suf in sys.argv[1:]:
         for b in P.find(suf):
             dump(b)
